@@ -247,9 +247,9 @@ struct GenStats {
 };
 
 // History kinds
-enum Kind { K_NONE, K_ONE, K_BEFORE, K_BETWEEN, K_AFTER, K_FAT, K_ODD, K_LEGACY_A, K_LEGACY_B, K_DSTFIRST, K_LEGACY_NEG, K_NKINDS };
+enum Kind { K_NONE, K_ONE, K_BEFORE, K_BETWEEN, K_AFTER, K_FAT, K_ODD, K_LEGACY_A, K_LEGACY_B, K_DSTFIRST, K_LEGACY_NEG, K_BIGBANG_CHANGE, K_NKINDS };
 inline const char* kind_name(int k) {
-  static const char* n[] = {"none", "one", "seam-before", "seam-between", "seam-after", "fat-bigbang", "oddities", "legacy-dst-type0-first", "legacy-dst-type0-later", "first-period-is-dst", "legacy-negative-dst-type0"};
+  static const char* n[] = {"none", "one", "seam-before", "seam-between", "seam-after", "fat-bigbang", "oddities", "legacy-dst-type0-first", "legacy-dst-type0-later", "first-period-is-dst", "legacy-negative-dst-type0", "bigbang-entry-changes-type"};
   return n[k];
 }
 
@@ -377,6 +377,23 @@ inline bool build_zone(const Footer& f, int kind, int version, GenZone* out, Gen
         // a last recorded entry early in the final year, before both of its rule transitions
         i128 t = ev[n - 3].first + (ev[n - 2].first - ev[n - 3].first) / 2;
         push(static_cast<long long>(t), regime(t));  // no-op entry (same regime), as zic's "last year" stubs
+      }
+      break;
+    }
+    case K_BIGBANG_CHANGE: {
+      // not something zic writes: the entry at -2^59 selects a type OTHER than type 0, i.e. it is a genuine change.
+      // cctz treats every first entry at or before -2^59 as a sentinel that next/prev_transition never report (C11
+      // leaves that one change a don't-care); everything else about the file is ordinary.
+      if (version < 2) return false;
+      TType OST{S - 1800 > -86400 ? S - 1800 : S + 1800, false, "OST"};
+      push(-(1LL << 59), OST);
+      if (has_rule) {
+        auto ev = rule_events(1990, 1992);
+        if (ev.empty()) { push(T_LMT + YEAR, regime(T_LMT + YEAR)); break; }
+        push(T_LMT + YEAR, regime(ev.front().first - 1));
+        for (auto& e : ev) push(static_cast<long long>(e.first), rtype(e.second));
+      } else {
+        push(T_LMT + YEAR, TType{S, false, SA});
       }
       break;
     }
